@@ -5,6 +5,7 @@ package c10
 import (
 	"encoding/json"
 	"fmt"
+	"os"
 	"strings"
 	"sync"
 	"time"
@@ -124,12 +125,13 @@ func (H) Generate(r *simrt.Rand, tier string) any {
 		b := r.Intn(5) - 1
 		s.Subs = append(s.Subs, SubSpec{Buf: b, Recv: genRecv(r)})
 	}
+	base252 := os.Getenv("VERIF_C10_BASE252") != "" // regression runs on the code before 41a08ec: do not exercise what was broken there
 	withOnly := len(s.Subs) > 0 && r.Intn(5) == 0
 	only := -1
 	protect := -1 // a subscription the control tasks leave alone
 	if withOnly {
 		only = r.Intn(len(s.Subs))
-		s.EarlyClone = r.Intn(2) == 0
+		s.EarlyClone = r.Intn(2) == 0 && !base252
 		if !s.EarlyClone {
 			protect = only // a clone made at call time is not used after its channel's removal
 		}
@@ -223,7 +225,7 @@ func (H) Generate(r *simrt.Rand, tier string) any {
 			s.Ctl2 = append(s.Ctl2, CtlOp{Op: "unsub", Target: t, Delay: r.Intn(10)})
 		}
 	}
-	if s.Timeout > 0 && s.OnTimeout && len(s.Subs) > 0 && len(s.Ctl2) == 0 && r.Intn(4) == 0 {
+	if s.Timeout > 0 && s.OnTimeout && len(s.Subs) > 0 && len(s.Ctl2) == 0 && r.Intn(4) == 0 && !base252 {
 		sync := false
 		for _, p := range s.Pubs {
 			for _, c := range p {
@@ -350,6 +352,7 @@ func (H) Shrink(sc any) []any {
 type delivery struct {
 	tok   int
 	stamp int64
+	step  int64 // OnPubTimeout records: the step at which the callback ran
 }
 
 type subState struct {
@@ -425,7 +428,7 @@ func (r *run) receiver(st *subState) {
 			st.closedSeen = stamp
 			return
 		}
-		st.got = append(st.got, delivery{v, stamp})
+		st.got = append(st.got, delivery{v, stamp, 0})
 		n++
 	}
 }
@@ -460,9 +463,11 @@ func (H) Execute(scAny any, cfg simrt.Config, st *core.Stats) (*simrt.Outcome, *
 	if sc.OnTimeout {
 		unsubbed := false
 		r.ps.OnPubTimeout = func(ev int) {
+			simrt.Yield() // a callback takes time: whoever must wait for it can be seen not to
 			now := simrt.NowNanos()
+			step := simrt.Stamp()
 			r.mu.Lock()
-			r.touts = append(r.touts, delivery{ev, now})
+			r.touts = append(r.touts, delivery{ev, now, step})
 			first := sc.UnsubOnTimeout > 0 && !unsubbed
 			unsubbed = true
 			r.mu.Unlock()
@@ -540,7 +545,7 @@ func (H) Execute(scAny any, cfg simrt.Config, st *core.Stats) (*simrt.Outcome, *
 							mine[k] = 999000 + k
 						}
 					}
-					cr.liveKids = simrt.LiveChildrenSince(cr.inv)
+					cr.liveKids = simrt.UnfinishedSendersSince(cr.inv)
 					cr.ret = simrt.Stamp()
 					cr.returned = true
 				}
@@ -738,7 +743,7 @@ func (r *run) check(out *simrt.Outcome, st *core.Stats) *core.Violation {
 		lastSync := map[int]int{}
 		all := append([]delivery(nil), s.got...)
 		for _, v := range s.left {
-			all = append(all, delivery{v, inf})
+			all = append(all, delivery{v, inf, 0})
 		}
 		for _, d := range all {
 			c := byTok[d.tok]
@@ -779,10 +784,10 @@ func (r *run) check(out *simrt.Outcome, st *core.Stats) *core.Violation {
 	for p := range r.calls {
 		for _, c := range r.calls[p] {
 			if c.returned && isWait(c.pc.Variant) && c.liveKids > 0 {
-				return &core.Violation{Signature: "wait-returned-early", Detail: fmt.Sprintf("%s returned while %d of the sender goroutines it started were still running", c.pc.Variant, c.liveKids)}
+				return &core.Violation{Signature: "wait-returned-early", Detail: fmt.Sprintf("%s returned while %d of the goroutines it started had not started yet or were still in a channel send: a hand-off was not finished", c.pc.Variant, c.liveKids)}
 			}
 			if c.returned && isSync(c.pc.Variant) && c.liveKids > 0 {
-				return &core.Violation{Signature: "sync-started-goroutines", Detail: fmt.Sprintf("%s left %d goroutines running", c.pc.Variant, c.liveKids)}
+				return &core.Violation{Signature: "wait-returned-early", Detail: fmt.Sprintf("%s returned while %d goroutines it started had not started yet or were still in a channel send: a hand-off was not finished", c.pc.Variant, c.liveKids)}
 			}
 		}
 	}
@@ -792,6 +797,9 @@ func (r *run) check(out *simrt.Outcome, st *core.Stats) *core.Violation {
 		c := byTok[t.tok]
 		if c == nil {
 			return &core.Violation{Signature: "invented-timeout", Detail: fmt.Sprintf("OnPubTimeout called with %d which nobody published", t.tok)}
+		}
+		if c.returned && (isWait(c.pc.Variant) || isSync(c.pc.Variant)) && t.step > c.ret {
+			return &core.Violation{Signature: "wait-returned-early", Detail: fmt.Sprintf("%s returned at step %d, but the OnPubTimeout(%d) call that ends one of its (event, subscriber) pairs ran at step %d", c.pc.Variant, c.ret, t.tok, t.step)}
 		}
 		if t.stamp-c.t0 < sc.Timeout {
 			return &core.Violation{Signature: "timed-out-early", Detail: fmt.Sprintf("OnPubTimeout(%d) was called %v after the %s call began, PubTimeoutAfter is %v", t.tok, time.Duration(t.stamp-c.t0), c.pc.Variant, time.Duration(sc.Timeout))}
